@@ -43,12 +43,12 @@ def enum_plans(tier):
             dict(cfg="T1", depth=6 if th else 5, maxtime=1, alpha=["cerok", "req1", "req2", "senderr"], faults=True, maxconn=1)]
 
 
-HANDLERS = ["answer", "hold", "raise", "slow"]
+HANDLERS = ["answer", "hold", "raise", "slow", "alt", "alt"]
 
 
 def fault_cfg(rng):
     kind = rng.choice(["threading", "threading", "threading", "basic"])
-    handler = rng.choice(HANDLERS if kind == "threading" else ["answer", "hold", "raise"])
+    handler = rng.choice(HANDLERS if kind == "threading" else ["answer", "hold", "raise", "alt"])
     node = {"idle": rng.choice([30, 30, 3]), "dwa": rng.choice([1, 2]), "cer": rng.choice([2, 3]), "cea": rng.choice([2, 3]), "wakeup": rng.choice([1, 2]), "retx": 4}
     peers = [peer_cfg("p1"), peer_cfg("p2", persistent=rng.random() < 0.6, rwait=rng.choice([1, 2]), always=rng.random() < 0.5)]
     apps = [app_cfg("a1", 4, peers=["p1", "p2"], kind=kind, max_threads=rng.choice([0, 1, 2, 3]), handler=handler)]
